@@ -382,3 +382,21 @@ Proof.
   - rewrite get_as_int16_ok by lia. rewrite Z.mod_small by lia. reflexivity.
   - lia.
 Qed.
+
+(* ---------- unary minus / plus applied directly to a label ----------
+   operators.neg is not awaited: -label stays the polynomial -LA - offset (it is NOT forced to a number),
+   so it cancels against another label:  -s + e  and  e + (-s)  are the constant  off_e - off_s. *)
+Theorem neg_keeps_symbolic labels a p :
+  leval labels a = Ok p -> leval labels (LNeg a) = Ok (neg p) /\ forall x, coeff x (neg p) = - coeff x p.
+Proof. intros H. cbn [leval]. rewrite H. split; [reflexivity|]. intros x. apply coeff_neg. Qed.
+
+Theorem neg_label_cancels offs s e : (s < length offs)%nat -> (e < length offs)%nat ->
+  exists p, leval (lab_polys offs) (LAdd (LNeg (LLabel s)) (LLabel e)) = Ok p /\ is_const p = true /\
+            const p = nth e offs 0 - nth s offs 0 /\
+  exists q, leval (lab_polys offs) (LAdd (LLabel e) (LNeg (LLabel s))) = Ok q /\ is_const q = true /\
+            const q = nth e offs 0 - nth s offs 0.
+Proof.
+  intros Hs He. cbn [leval]. rewrite (nth_error_nth_lab offs s Hs), (nth_error_nth_lab offs e He). cbn [bind].
+  eexists. split; [reflexivity|]. split; [reflexivity|]. split; [simpl; lia|].
+  eexists. split; [reflexivity|]. split; [reflexivity|]. simpl; lia.
+Qed.
